@@ -126,11 +126,11 @@ func (m *Machine) mapClone(sm *symMap) *symMap {
 // solver-independent but choice-driven order (order mode, C09): every next()
 // picks one of the not-yet-produced live entries with a fresh choice.
 type mapIter struct {
-	sm   *symMap
-	pos  int          // canonical mode cursor
-	done map[int]bool // order mode: entry indices already produced
-	base int          // order mode: entries present when iteration began
-	fixed []int       // light order mode: the chosen order of the initial entries
+	sm    *symMap
+	pos   int          // canonical mode cursor
+	done  map[int]bool // order mode: entry indices already produced
+	base  int          // order mode: entries present when iteration began
+	fixed []int        // light order mode: the chosen order of the initial entries
 	fpos  int
 }
 
